@@ -853,6 +853,10 @@ func (c *Ctx) CheckGate(rule string, fn *ssa.Function, fnName string, g Guard, s
 			c.add(rule, construct, c.P.Pos(fn.Pos()), Undecided, msg+" (the routine works through "+od+": the steps behind it are not visible to the gate)")
 			return false
 		}
+		if fv := FuncValueFromHelper(fn); fv != "" {
+			c.add(rule, construct, c.P.Pos(fn.Pos()), Undecided, msg+" (the routine calls a function value handed out by "+fv+", which can report a failure: the step may be made through it)")
+			return false
+		}
 		if !exists || !anySuccess || g.Callee == nil {
 			c.add(rule, construct, c.P.Pos(fn.Pos()), Undecided, msg)
 		} else {
@@ -1183,4 +1187,42 @@ func DeferRewritesResults(fn *ssa.Function) bool {
 		}
 	}
 	return false
+}
+
+// FuncValueFromHelper: fn calls, dynamically, a function value that an unexported repository
+// routine returned (a method value chosen per room version, a step made by a factory) and whose
+// results include an error. Returns the helper's name, or "".
+func FuncValueFromHelper(fn *ssa.Function) string {
+	for _, call := range Calls(fn) {
+		cc := call.Common()
+		if cc.IsInvoke() || cc.StaticCallee() != nil {
+			continue
+		}
+		if _, isB := cc.Value.(*ssa.Builtin); isB {
+			continue
+		}
+		sig, ok := cc.Value.Type().Underlying().(*types.Signature)
+		if !ok {
+			continue
+		}
+		hasErr := false
+		for i := 0; i < sig.Results().Len(); i++ {
+			if sig.Results().At(i).Type().String() == "error" {
+				hasErr = true
+			}
+		}
+		if !hasErr {
+			continue
+		}
+		v := LoadOrigin(Unwrap(cc.Value))
+		if ex, isEx := v.(*ssa.Extract); isEx {
+			v = ex.Tuple
+		}
+		if hc, isCall := v.(*ssa.Call); isCall {
+			if h := hc.Common().StaticCallee(); h != nil && h.Pkg != nil && fn.Pkg != nil && h.Pkg == fn.Pkg && !exportedFunc(h) {
+				return FuncName(h)
+			}
+		}
+	}
+	return ""
 }
